@@ -13,12 +13,13 @@ CONSTANTS OrdKinds,     \* ordinary attribute kinds usable with add_attribute / 
           MaxOps        \* bound on the number of successful additions (the list cannot grow beyond the kinds anyway)
 
 \* kind -> wire type and concrete value used for serialisation
-KindType(k) == CASE k = "A" -> 32802 [] k = "B" -> 36 [] k = "R" -> 32513 [] k = "U" -> 6
+KindType(k) == CASE k = "A" -> 32802 [] k = "B" -> 36 [] k = "R" -> 32513 [] k = "U" -> 6 [] k = "Z" -> 0
                  [] k = "MI" -> 8 [] k = "MI256" -> 28 [] k = "FP" -> 32808
 KindValue(k) == CASE k = "A" -> <<97, 98>>                 \* SOFTWARE "ab" (2 padding bytes)
                   [] k = "B" -> <<0, 0, 1, 44>>            \* PRIORITY 300
                   [] k = "R" -> <<1, 2, 3>>                \* unknown 0x7f01, 1 padding byte
                   [] k = "U" -> <<>>                       \* USERNAME ""
+                  [] k = "Z" -> <<5>>                      \* raw attribute of the reserved type 0x0000
                   [] k = "MI" -> [i \in 1..20 |-> 160 + i]
                   [] k = "MI256" -> [i \in 1..32 |-> 200 + i]
                   [] k = "FP" -> <<0, 0, 0, 0>>            \* placeholder, see Serialize
@@ -115,9 +116,9 @@ Composition ==
   /\ IntegrityPlan(b).present => IntegrityPlan(b).alg = (IF "MI256" \in Kinds(attrs) THEN "sha256" ELSE "sha1")
 
 StateJson(s) == [attrs |-> s, len |-> ByteLen(s),
-                 has |-> [k \in {"A", "B", "R", "U", "MI", "MI256", "FP"} |-> k \in Kinds(s)],
+                 has |-> [k \in {"A", "B", "R", "U", "Z", "MI", "MI256", "FP"} |-> k \in Kinds(s)],
                  types |-> [i \in 1..Len(s) |-> KindType(s[i])]]
 Emit == PrintT("EDGE " \o ToJson([src |-> StateJson(attrs), act |-> act', dst |-> StateJson(attrs')]))
-KindTable == [k \in {"A", "B", "R", "U", "MI", "MI256", "FP"} |-> [type |-> KindType(k), value |-> KindValue(k)]]
+KindTable == [k \in {"A", "B", "R", "U", "Z", "MI", "MI256", "FP"} |-> [type |-> KindType(k), value |-> KindValue(k)]]
 ASSUME PrintT("KINDS " \o ToJson(KindTable))
 =============================================================================
